@@ -360,6 +360,8 @@ fn find_free_symbols<'a>(
     env: &mut HashSet<&'a Cell>,
     free: &mut HashSet<&'a Cell>,
 ) -> Result<(), Error> {
+    #[cfg(marwood_verif)]
+    let _verif_depth = crate::vm::verif::depth::enter("free", "find_free_symbols");
     match cell {
         Cell::Symbol(_) => match env.contains(&cell) {
             true => Ok(()),
@@ -387,6 +389,8 @@ fn find_free_symbols_in_proc<'a>(
     env: &mut HashSet<&'a Cell>,
     free: &mut HashSet<&'a Cell>,
 ) -> Result<(), Error> {
+    #[cfg(marwood_verif)]
+    let _verif_depth = crate::vm::verif::depth::enter("free", "find_free_symbols_in_proc");
     if car.is_quote() || car.is_quasiquote() {
         return Ok(());
     }
